@@ -47,14 +47,9 @@ def _get(path, ch, f, stream_exp, nm):
             if len(d) != len(chunk):
                 probs.append("len(chunk) %d != len(chunk[:]) %d" % (len(chunk), len(d)))
             if len(chunk) > 0:
-                if k >= len(stream_exp) or stream_exp[k]["count"] != len(chunk) or stream_exp[k]["first"] != chunk.offset:
-                    probs.append("chunk %d: (offset %d, len %d) not the specification's %r" % (
-                        k, chunk.offset, len(chunk), stream_exp[k] if k < len(stream_exp) else None))
                 k += 1
             out.extend(proj.elems(d))
             run += len(chunk)
-        if k != len(stream_exp):
-            probs.append("%d non-empty chunks, specification has %d" % (k, len(stream_exp)))
         return out, probs
     if path == "file_chunks":
         out = []
@@ -64,6 +59,17 @@ def _get(path, ch, f, stream_exp, nm):
             chunk = dc["grp"][nm]
             if len(chunk) > 0 and chunk.offset != run:
                 probs.append("file chunk offset %d != running count %d" % (chunk.offset, run))
+            out.extend(proj.elems(chunk[:]))
+            run += len(chunk)
+        return out, probs
+    if path == "file_chunks_listed":
+        out = []
+        run = 0
+        for dc in list(f.data_chunks()):          # every chunk is inspected only after the generator is exhausted
+            chunk = dc["grp"][nm]
+            if len(chunk) > 0 and chunk.offset != run:
+                probs.append("file chunk offset %d != running count %d (inspected after the generator advanced)"
+                             % (chunk.offset, run))
             out.extend(proj.elems(chunk[:]))
             run += len(chunk)
         return out, probs
